@@ -505,10 +505,16 @@ fn aggregate(candidates: &[Candidate], opposing: bool) -> (f64, usize) {
     // Independent groups accumulate, with diminishing returns: two moderate
     // independent sources say more than either alone, but nothing here is a
     // calibrated probability, so the score is declared as normalized strength.
+    //
+    // The groups come out in recording order and floating-point multiplication
+    // is not associative, so the fold runs over the sorted confidences: the
+    // score is then a function of the set of groups, not of who spoke first.
+    let mut confidences: Vec<f64> = groups.iter().map(|(_, c)| *c).collect();
+    confidences.sort_by(f64::total_cmp);
     let score = 1.0
-        - groups
+        - confidences
             .iter()
-            .fold(1.0, |acc, (_, c)| acc * (1.0 - c.clamp(0.0, 1.0)));
+            .fold(1.0, |acc, c| acc * (1.0 - c.clamp(0.0, 1.0)));
     (score, groups.len())
 }
 
